@@ -78,6 +78,25 @@ def pushInput (cv : Conv) (cb : ColBuf) : InputColumn → Except Fault ColBuf
   | .nullableFloat c data => pushSparse cv RawVal.float cb c 0 data
   | .nullableInt c data => pushSparse cv RawVal.int cb c 0 data
 
+/-! ### what a batch supplies for one column (specification side) and what `push_typed_cols` issues -/
+
+/-- The ops whose `specColumn` is "the cells this representation supplies for a batch of `rows` rows":
+    the dense prefix / the sparse entries / the mixed values, NULL elsewhere; `none` = column missing.
+    (supplying zero values does not give the column a type.) -/
+def repOps (rows : Nat) : Option Rep → List Op
+  | none | some .empty => [.nulls rows]
+  | some (.dense d) => (if d.isEmpty then [] else [.floats (d.take rows)]) ++ [.nulls (rows - d.length)]
+  | some (.i64 d) => (if d.isEmpty then [] else [.ints (d.take rows)]) ++ [.nulls (rows - d.length)]
+  | some (.str d) => [.strs d]
+  | some (.mixed d) => d.map fun
+      | .int i => .ints [i] | .float f => .floats [f] | .str s => .strs [s] | .null => .nulls 1
+  | some (.sparse d) => sparseOps (fun f => Op.floats [f]) rows 0 d
+  | some (.sparseI64 d) => sparseOps (fun i => Op.ints [i]) rows 0 d
+where
+  sparseOps {α : Type} (mk : α → Op) (rows : Nat) (next : Nat) : List (Nat × α) → List Op
+    | [] => [.nulls (rows - next)]
+    | (i, v) :: rest => .nulls (i - next) :: mk v :: sparseOps mk rows (i + 1) rest
+
 /-- `Buffer` -/
 structure Buffer where
   cols : List (String × ColBuf) := []
